@@ -24,6 +24,7 @@ TNext == \/ (E.e = "deliver" /\ Step(Deliver(E.k)))
          \/ (E.e = "write"   /\ Step(WriteCall(E.r)))
          \/ (E.e = "finish"  /\ Step(FinishCall(E.r) \/ LateFinish(E.r)))
          \/ (E.e = "notify"  /\ Step(Notify(E.r, E.d, E.v)))
+         \/ (E.e = "nfreq"   /\ Step(NotifyRequest(E.r, E.d)))
          \/ (E.e = "lost"    /\ Step(Lose))
          \/ (E.e = "pause"   /\ Step(Pause))
          \/ (E.e = "resume"  /\ Step(Resume))
